@@ -30,6 +30,7 @@ var importMap = map[string]string{
 	"sync":                                   shimBase + "vsync",
 	"sync/atomic":                            shimBase + "vatomic",
 	"github.com/iotaledger/iota.go/curl/bct": shimBase + "vbct",
+	"github.com/iotaledger/iota.go/curl":     shimBase + "vcurl",
 }
 
 type unsupported string
@@ -476,7 +477,7 @@ func main() {
 	repo, shim, out := os.Args[1], os.Args[2], os.Args[3]
 	os.MkdirAll(out, 0o755)
 	replace := map[string]string{}
-	for i, rel := range []string{"pkg/pow/worker.go", "pkg/pow/v2/worker.go"} {
+	for i, rel := range []string{"pkg/pow/worker.go", "pkg/pow/v2/worker.go", "pkg/pow/pow.go", "pkg/pow/v2/pow.go"} {
 		src := filepath.Join(repo, rel)
 		b, err := rewriteFile(src)
 		if err != nil {
@@ -490,7 +491,7 @@ func main() {
 		}
 		replace[src] = dst
 	}
-	for _, pkg := range []string{"vsched", "vsync", "vatomic", "vchan", "vbct"} {
+	for _, pkg := range []string{"vsched", "vsync", "vatomic", "vchan", "vbct", "vcurl"} {
 		files, _ := filepath.Glob(filepath.Join(shim, pkg, "*.go"))
 		for _, f := range files {
 			replace[filepath.Join(repo, "pkg", "verifshim", pkg, filepath.Base(f))] = f
